@@ -196,7 +196,8 @@ def _target():
         for _ in days:
             ws = gen_weights(rng, cols)
             rows.append([None if rng.random() < 0.2 else v for _, v in ws])
-        return {"u": u, "now": now, "cols": cols, "days": days, "rows": rows, "byname": rng.random() < 0.5, "prior": rng.random() < 0.3}
+        return {"u": u, "now": now, "cols": cols, "days": days, "rows": rows, "byname": rng.random() < 0.5, "prior": rng.random() < 0.3,
+                "earlier_setup": rng.random() < 0.4}
 
     def ex(bt, c):
         d = c.case
@@ -209,6 +210,16 @@ def _target():
         if d["prior"]:
             s.temp["weights"] = prior
         algo = bt.algos.WeighTarget("tw" if d["byname"] else frame)
+        if d["byname"] and d.get("earlier_setup"):
+            # the same algo instance was used before, on a strategy set up with ANOTHER frame under the same name (a first
+            # walk-forward pass, a probe): a named frame is looked up in the setup of the strategy at hand
+            other = (frame * 0.5).shift(1, fill_value=0.25) if len(frame) else frame
+            s0, _ = make_strategy(bt, d["u"], d["now"], extra={"tw": other})
+            try:
+                algo(s0)
+            except Exception:
+                pass
+            c.tags.append("named-frame:instance-used-before-under-another-setup")
         ret = algo(s)
         today = d["u"]["days"][d["now"]]
         present = today in d["days"]
